@@ -1,11 +1,11 @@
-\* exhaustive invariant check: all action sequences of length <= 7, 3 created contexts + 2 thread contexts
+\* exhaustive invariant check: all action sequences of length <= 8, 3 created contexts + 2 thread contexts
 SPECIFICATION Spec
 CONSTANTS
   NCtx = 3
   NThreads = 2
   SizeRes = {0, 1, 8, 15}
   Pats = {1, 2}
-  MaxLen = 7
+  MaxLen = 8
   Mode = "check"
 INVARIANTS TypeOK OneRunner ResumeExact CanariesIntact SavedInOwnStack EntryOK StacksDisjoint ReleasedOnce NoCrash
 CHECK_DEADLOCK FALSE
